@@ -747,6 +747,7 @@ fn parse_air(label: &str) -> Option<TAir> {
         ["addrl", r] => TAir::AddRl { rows: num(r, "r")? },
         ["per", r] => TAir::Per { rows: num(r, "r")? },
         ["subrl", r] => TAir::SubRl { rows: num(r, "r")? },
+        ["lk", r] => TAir::Lk { rows: num(r, "r")? },
         _ => return None,
     };
     (air.label() == label).then_some(air)
@@ -885,8 +886,8 @@ macro_rules! kit_cfg {
                 let pis: Vec<Vec<F>> = de(b, "pis")?;
                 let cj: Option<CommonJ> = de(b, "common")?;
                 let fri: FriSc = de(b, "fri")?;
-                // the small AIRs declare no lookups: one empty lookup list per AIR
-                let common = common_from(cj, vec![p3_lookup::Lookups::<F>::default(); airs.len()]);
+                // verifier-side lookup contexts, derived from the AIRs alone
+                let common = common_from(cj, c::kit_air_lookups(&airs));
                 let counts: Vec<usize> = pis.iter().map(|v| v.len()).collect();
                 if counts.len() != proof.opened_values.instances.len() {
                     return Err("public value list count != instance count".into());
